@@ -26,7 +26,7 @@ KINDS = xf.LINEAR_KINDS + xf.SCAT_KINDS
 
 def plan(tier):
     if tier == 'quick':
-        return [{'n': 90} for _ in range(8)]
+        return [{'n': 200} for _ in range(8)]
     units = [{'n': 1500, 'kind': k} for k in KINDS]
     units += [{'n': 5000} for _ in range(16)]
     return units
@@ -38,9 +38,11 @@ def _case(draw, unit):
     C = 3 if xf.needs_three_channels(cfg) else draw(st.sampled_from([1, 2, 3]))
     if cfg['kind'] in xf.SCAT_KINDS and draw(st.integers(0, 2)) == 0:
         cfg['bias'] = 0.0          # the plain modulus: no bias term to hide an absolute error behind
+    kinds = ['gaussian', 'wide', 'wide', 'offset', 'sparse', 'ramp', 'constant', 'grating', 'grating']
+    if cfg['kind'] in xf.SCAT_KINDS or cfg['kind'].startswith('dtcwt'):
+        kinds = kinds + ['grating'] * 5          # orientation-selective transforms: half of the inputs are oriented
     return {'cfg': cfg, 'N': draw(st.sampled_from([1, 2, 3])), 'C': C,
-            'rx': draw(core.recipe_strategy(kinds=['gaussian', 'wide', 'wide', 'offset', 'sparse', 'ramp', 'constant'],
-                                            scales=(0, 0, 0, 6, -6, -3, -4))),
+            'rx': draw(core.recipe_strategy(kinds=kinds, scales=(0, 0, 0, 6, -6, -3, -4))),
             'view': draw(st.sampled_from(VIEWS)), 'convert': draw(st.sampled_from(['none', 'double', 'float'])),
             'k': draw(st.integers(0, 10**6))}
 
@@ -89,7 +91,7 @@ def run_case(case):
     functional = kind in ('afb2d', 'sfb2d', 'afb2d_nonsep', 'sfb2d_nonsep')
     conv = case['convert'] if not functional else 'none'
     tin = xf.total_in(cfg)
-    x = core.make(case['rx'], [N, C, tin])
+    x = xf.make_flat(case['rx'], cfg, N, C)
     if case['view'] == 'expanded_batch':
         x = np.repeat(x[:1], N, axis=0)
     if is_scat and core.maxabs(x) > 1e15:
@@ -152,6 +154,15 @@ def run_case(case):
     if not okc:
         r.fail('float32_accuracy:' + kind, 'float32 result is further from float64 than 64*eps32*(gain*max|x|+bias): ' +
                core.first_mismatch(y32, y64, bound))
+    # the plain call (nothing requires grad: what inference code does) must be just as accurate
+    _, o32p = run(f32, x32, torch.float32)
+    y32p = xf.per_slice(o32p)
+    if y32p.shape != y64.shape:
+        return r.fail('shape_depends_on_dtype:' + kind, 'float32 output %s, float64 output %s' % (y32p.shape, y64.shape))
+    okc, err = core.close(y32p, y64, bound)
+    if not okc:
+        r.fail('float32_accuracy_plain_call:' + kind, 'float32 result of a call whose input does not require grad is further '
+               'from float64 than 64*eps32*(gain*max|x|+bias): ' + core.first_mismatch(y32p, y64, bound))
     # gradient dtype
     diff = [t for t in o32 if t.requires_grad]
     if diff:
